@@ -259,6 +259,30 @@ def r5_supported_only(ctx, rule):
     assigns = [s for s in walk_stmts(bfn.body) if isinstance(s, ast.Assign) and U(s.targets[0]) == fname]
     facts['flag_assignments'] = [U(s) for s in assigns]
     good = fname is not None
+    # quantifier form: is_supported = not any(<label>[0] in ['W','E'] for <section> in <all sections>)  /  all(... not in ...)
+    quant = None
+    if len(assigns) == 1:
+        v = assigns[0].value
+        neg = False
+        if isinstance(v, ast.UnaryOp) and isinstance(v.op, ast.Not):
+            v, neg = v.operand, True
+        if isinstance(v, ast.Call) and call_name(v) in ('any', 'all') and len(v.args) == 1 and isinstance(v.args[0], (ast.GeneratorExp, ast.ListComp)) \
+                and len(v.args[0].generators) == 1 and not v.args[0].generators[0].ifs:
+            g = v.args[0].generators[0]
+            e = v.args[0].elt
+            over_all = U(g.iter) == params(bfn)[0]
+            if isinstance(e, ast.Compare) and len(e.ops) == 1 and isinstance(e.comparators[0], (ast.List, ast.Tuple, ast.Set, ast.Constant)) \
+                    and U(e.left).endswith('[1][0]'):
+                letters = set(const(x) for x in e.comparators[0].elts) if not isinstance(e.comparators[0], ast.Constant) else set(e.comparators[0].value)
+                is_in = isinstance(e.ops[0], ast.In)
+                # supported iff no label starts with E/W
+                quant = over_all and letters == {'E', 'W'} and ((call_name(v) == 'any' and neg and is_in) or
+                                                                (call_name(v) == 'all' and not neg and isinstance(e.ops[0], ast.NotIn)))
+    if quant is True:
+        ctx.ok(rule, bq, 'is_supported = no section label starts with E/W (quantifier over all sections)', facts)
+        if ok:
+            ctx.ok(rule, q, 'supported structures -> both lists; unsupported -> raw list only', facts)
+        return
     init = [s for s in assigns if const(s.value) is True and mod is not None and not any(isinstance(a, (ast.For, ast.While)) for a in enclosing_stmt_chain(bmod, s))]
     clears = [s for s in assigns if s not in init]
     if len(init) != 1:
